@@ -864,7 +864,31 @@ func (le *lenEngine) ltLen(idx, X ssa.Value, site ssa.Instruction) string {
 }
 
 // leLen proves v <= len(X).
+// ioCount: v is the count an io.Reader's Read / io.Writer's Write (interface call, signature ([]byte) (int, error))
+// returned for the buffer it was given. The contract of both interfaces is 0 <= n <= len(p).
+func ioCount(v ssa.Value) (buf ssa.Value, ok bool) {
+	ex, isEx := core.Strip(v).(*ssa.Extract)
+	if !isEx || ex.Index != 0 {
+		return nil, false
+	}
+	c, isC := ex.Tuple.(*ssa.Call)
+	if !isC || !c.Call.IsInvoke() || (c.Call.Method.Name() != "Read" && c.Call.Method.Name() != "Write") || len(c.Call.Args) != 1 {
+		return nil, false
+	}
+	sig := c.Call.Method.Type().(*types.Signature)
+	if sig.Results().Len() != 2 || !types.Identical(sig.Results().At(0).Type(), types.Typ[types.Int]) {
+		return nil, false
+	}
+	if sl, isSl := sig.Params().At(0).Type().(*types.Slice); !isSl || !types.Identical(sl.Elem(), types.Typ[types.Byte]) {
+		return nil, false
+	}
+	return c.Call.Args[0], true
+}
+
 func (le *lenEngine) leLen(v, X ssa.Value, site ssa.Instruction) string {
+	if buf, ok := ioCount(v); ok && (buf == X || le.sameSeq(buf, X)) {
+		return "io.Reader/io.Writer contract: 0 <= n <= len(p)"
+	}
 	lx := le.LenAt(X, site)
 	ib := le.intBounds(v, site, 0)
 	if ib.hi != inf && ib.hi <= lx.lo {
@@ -905,6 +929,9 @@ func (le *lenEngine) leLen(v, X ssa.Value, site ssa.Instruction) string {
 }
 
 func (le *lenEngine) geZero(v ssa.Value, site ssa.Instruction) bool {
+	if _, ok := ioCount(v); ok {
+		return true
+	}
 	return le.intBounds(v, site, 0).lo >= 0
 }
 
